@@ -15,6 +15,7 @@ from pbsym.ctx import B
 from pbsym.models import serializer
 
 PROPERTY = 'C02'
+TECHNIQUE = 'CrossHair/z3 symbolic execution of the replay branches of the real decorators over symbolic recorded/replayed programs and missing-key options; reference policy oracle'
 FUNCTIONS = ['playback/tape_recorder.py::TapeRecorder._intercept_input',
              'playback/tape_recorder.py::TapeRecorder._intercept_output',
              'playback/tape_recorder.py::TapeRecorder._playback_recorded_interception',
